@@ -8,7 +8,10 @@
   each connection has been told about (EXISTS / EXPUNGE). UIDs, UIDVALIDITY values, sequence numbers
   and removals are never predicted: they are taken from the responses and checked against the laws:
 
-    connection-crashed            no syntactically valid command may end the connection
+    connection-crashed            no syntactically valid command may end the connection (a tagged reply
+                                  arrives, the server log has no panic); incomplete-response-line: every
+                                  response line is complete (balanced) — judged for every command incl.
+                                  FETCH items outside the model (BODY, BODYSTRUCTURE, ENVELOPE, multipart sections)
     uid-not-increasing            a new UID is larger than every UID ever issued in that mailbox and
                                   not below an announced UIDNEXT; COPYUID destinations ascend
     uidnext-not-above-uids        an announced UIDNEXT exceeds every issued UID and never decreases
@@ -210,6 +213,7 @@ def selBox (g : G) (cid : Nat) : Option (GConn × GBox) :=
 def check (g : G) (cid : Nat) (cmd : Cmd) (r : Resp) : G × Option String :=
   if r.status == .panic then (g, some "connection-crashed")
   else if r.code == .garbled then (g, some "malformed-response-code")
+  else if r.items.any (fun it => it == .unknown "incomplete") then (g, some "incomplete-response-line")
   else if g.shared then (g, none)
   else
   let okS := r.status == .ok
